@@ -164,3 +164,58 @@ def run_force(labels, opts, mode, engine=None, nodes=None, want_layer_lines=True
         for r in recs:
             lls.append(layer_line(mode, r["before"], r["after"], r["targets"], r["options"], r["xs"]))
     return fl, lls, engine, nodes
+
+
+# ---------------------------------------------------------------------------------------- C04: distributor
+from labella import distributor as dist_mod  # noqa: E402
+
+
+def run_dist(labels, dopts, mode):
+    """Distributor.distribute called directly.  dopts: algorithm, layerWidth, density, nodeSpacing, stubWidth (all given)."""
+    exact = mode == "exact"
+    o = {k: (conv(v, exact) if k != "algorithm" else v) for k, v in dopts.items()}
+    nodes = [Node(conv(p, exact), conv(w, exact), data={"i": i}) for i, (p, w) in enumerate(labels)]
+    d = dist_mod.Distributor(o)
+    layers = d.distribute(nodes)
+    for k, layer in enumerate(layers):     # the engine, not the distributor, numbers the layers
+        for n in layer:
+            n.layerIndex = k
+    ids = {id(n): i for i, n in enumerate(nodes)}
+    e = dict(dist_mod.DEFAULT_OPTIONS)
+    e.update(o)
+    labs = ";".join("%s:%s" % (fr(n.idealPos), fr(n.width)) for n in nodes)
+    return "dist|%s|%s|%s|%s|%s|%s|%s|%s" % (mode, e["algorithm"], fr(e["layerWidth"]), fr(e["density"]), fr(e["nodeSpacing"]),
+                                            fr(e["stubWidth"]), labs, observe_layers(layers, ids))
+
+
+# ---------------------------------------------------------------------------------------- C06: histories
+def placed_labels(nodes):
+    return ";".join("%s:%s:%d:%s" % (fr(n.idealPos), fr(n.width), n.layerIndex, fr(n.currentPos)) for n in nodes)
+
+
+def run_history(ops, mode):
+    """ops: list of ("new", opts) | ("nodes", labels) | ("stale-nodes",) | ("options", delta) | ("compute",) | ("empty-nodes",).
+    One engine at a time; after every compute the observable result is turned into a `force` line for the
+    *accumulated* options and the *current* labels.  Returns list of (line, tag)."""
+    exact = mode == "exact"
+    out = []
+    engine, nodes, acc = None, None, None
+    for op in ops:
+        if op[0] == "new":
+            acc = dict(op[1])
+            src = eff_force_opts(acc) if exact else acc
+            engine = force_mod.Force({k: (conv(v, exact) if k != "algorithm" else v) for k, v in src.items()})
+            if nodes is not None and op[-1] == "keep-nodes":      # stale nodes into a fresh engine
+                engine.nodes(nodes)
+        elif op[0] == "nodes":
+            nodes = [Node(conv(p, exact), conv(w, exact), data={"i": i}) for i, (p, w) in enumerate(op[1])]
+            engine.nodes(nodes)
+        elif op[0] == "empty-nodes":
+            engine.nodes([])            # returns the current list, does not clear (documented quirk of the getter/setter)
+        elif op[0] == "options":
+            acc.update(op[1])
+            engine.set_options({k: (conv(v, exact) if k != "algorithm" else v) for k, v in op[1].items()})
+        elif op[0] == "compute":
+            fl, lls, _, _ = run_force(None, acc, mode, engine=engine, nodes=nodes, want_layer_lines=False)
+            out.append((fl, placed_labels(nodes)))
+    return out
